@@ -37,17 +37,17 @@ def pack(label, f):
     if label == "dns.consumer":
         w.blob(m).blob(f["qname"]).u32(f.get("nbs", DNS_NAMEBUF))
     elif label == "dns.direct":
-        w.blob(m).u32(f["offset"]).u32(f.get("nbs", 256)).blob(f["qname"]).u32(f.get("count", 3))
+        w.blob(m).u32(f["offset"]).u32(f.get("nbs", 256)).blob(f["qname"]).u32(f.get("count", 3)).u32(f["fm"])
     elif label == "dns.labels":
-        w.blob(m).u32(f["nbs"])
+        w.blob(m).u32(f["nbs"]).u32(f["fm"])
     elif label == "radius":
         w.blob(m).blob(f["key"]).blob(f["req"]).u8(f["atype"]).u32(f["bsz"])
     elif label == "dhcp":
         w.blob(m)
     elif label in ("http.req.exact", "http.req.consumer"):
-        w.u8(1 if label.endswith("consumer") else 0).blob(m).blob(f["hname"]).blob(f["qname"])
+        w.u8(1 if label.endswith("consumer") else 0).blob(m).blob(f["hname"]).blob(f["qname"]).u32(f.get("fm", 7))
     elif label == "http.query":
-        w.blob(m).blob(f["qname"])
+        w.blob(m).blob(f["qname"]).u32(f["fm"])
     elif label == "http.hdr_remove":
         w.blob(m).blob(f["hname"])
     elif label == "http.chunked":
@@ -55,11 +55,11 @@ def pack(label, f):
     elif label == "http.urldec":
         w.blob(m).u32(f["bsz"]).u8(f["inplace"])
     elif label == "http.ws":
-        w.blob(m)
+        w.blob(m).u32(f["fm"])
     elif label in ("sap.exact", "sap.consumer"):
         w.u8(1 if label.endswith("consumer") else 0).blob(m)
     elif label == "sdp":
-        w.blob(m).u8(f["type"]).u32(f["line"]).u32(f["maxf"])
+        w.blob(m).u8(f["type"]).u32(f["line"]).u32(f["maxf"]).u32(f["fm"])
     elif label == "rtp":
         w.blob(m)
     elif label == "ts.valid":
@@ -304,7 +304,7 @@ def dns_cases(rng, nflips=24):
     for kind, m in mut_dns(rng, msg, meta, nflips):
         yield "dns.consumer", kind, dict(base, msg=m)
         k += 1
-        if k % 3 == 0:
+        if k % 6 == 0:
             o = rng.choice(offs) if rng.chance(2, 3) else rng.below(len(m) + 2)
             yield "dns.direct", kind, dict(base, msg=m, offset=max(o, 0), nbs=rng.choice((1, 2, 16, 256, 600)), count=rng.below(6))
     # label sequences on their own (RDATA-like buffers)
@@ -968,6 +968,22 @@ def random_cases(rng, count):
             yield "ts.stream", "random", {"msg": m, "off": rng.below(len(m) + 1), "psize": rng.choice(TS_SIZES)}
 
 
+# Direct (buf,size) operations bundle several functions; every such case is
+# expanded into one case per function so that a report in one function cannot
+# mask the others.
+FN_BITS = {"dns.direct": 7, "dns.labels": 2, "http.req.exact": 4, "http.query": 2, "http.ws": 5, "sdp": 4}
+
+
+def expand(cases):
+    for label, kind, f in cases:
+        nb = FN_BITS.get(label)
+        if nb is None or "fm" in f:
+            yield label, kind, f
+        else:
+            for b in range(nb):
+                yield label, kind, dict(f, fm=1 << b)
+
+
 # weights: how many base messages of each family per round
 FAMILIES = (
     ("dns", dns_cases, 3),
@@ -982,13 +998,24 @@ FAMILIES = (
 
 
 def round_cases(rng, first):
-    """One generation round: every family once (weighted), plus random strings."""
+    """One generation round: every family (weighted) plus random strings, the
+    families interleaved in slices so that a partially consumed round is still
+    balanced across parsers."""
+    gens = []
     if first:
-        yield from dns_special_cases(rng)
+        gens.append(expand(dns_special_cases(rng)))
     for _name, fn, weight in FAMILIES:
         for _ in range(weight):
-            yield from fn(rng)
-    yield from random_cases(rng, 400)
+            gens.append(expand(fn(rng)))
+    gens.append(expand(random_cases(rng, 400)))
+    while gens:
+        for g in list(gens):
+            for _ in range(64):
+                try:
+                    yield next(g)
+                except StopIteration:
+                    gens.remove(g)
+                    break
 
 
 def seeds_for_fuzz(rng, group, count):
